@@ -178,6 +178,126 @@ theorem c09_compress_bounds (s : List Rat) (tol : Rat) (mb : Option Nat) :
     unfold keepCompress capOpt
     cases mb <;> simp only <;> omega
 
+/-! ### the remaining kept-rank rules the correspondence ties (`truncated_right_svd`, `MPO.from_matrix._truncate`,
+    `decompose_theta`) -/
+
+/-- every value is at or below the tolerance: nothing is counted -/
+theorem countGT_eq_zero (tol : Rat) (l : List Rat) (h : ∀ x ∈ l, x ≤ tol) : countGT tol l = 0 := by
+  induction l with
+  | nil => rfl
+  | cons a t ih =>
+    have ha : ¬ tol < a := not_lt.mpr (h a (by simp))
+    simp [countGT, ha, ih (fun x hx => h x (by simp [hx]))]
+
+/-- on a spectrum in LAPACK order (non-increasing) the values above the tolerance are exactly a prefix, and
+    `countGT` is its length: the first `countGT` values are `> tol`, all later ones are `≤ tol` -/
+theorem countGT_prefix (tol : Rat) (s : List Rat) (hs : s.Pairwise (· ≥ ·)) :
+    (∀ x ∈ s.take (countGT tol s), tol < x) ∧ (∀ x ∈ s.drop (countGT tol s), x ≤ tol) := by
+  induction s with
+  | nil => simp [countGT]
+  | cons a t ih =>
+    rw [List.pairwise_cons] at hs
+    obtain ⟨hat, ht⟩ := hs
+    by_cases ha : tol < a
+    · have hc : countGT tol (a :: t) = countGT tol t + 1 := by simp [countGT, ha, Nat.add_comm]
+      rw [hc, List.take_succ_cons, List.drop_succ_cons]
+      refine ⟨?_, (ih ht).2⟩
+      intro x hx
+      rcases List.mem_cons.mp hx with rfl | hx
+      · exact ha
+      · exact (ih ht).1 x hx
+    · have hall : ∀ x ∈ t, x ≤ tol := fun x hx => le_trans (hat x hx) (not_lt.mp ha)
+      have hc : countGT tol (a :: t) = 0 := by simp [countGT, ha, countGT_eq_zero tol t hall]
+      rw [hc]
+      refine ⟨by simp, ?_⟩
+      intro x hx
+      rcases List.mem_cons.mp (by simpa using hx) with rfl | hx
+      · exact not_lt.mp ha
+      · exact hall x hx
+
+/-- **C09.4e** (`decompose_theta`, equivalence checker) on a spectrum in LAPACK order the kept values are exactly the
+    singular values strictly above the threshold — a prefix — and every discarded value is at or below it -/
+theorem c09_theta_rule (s : List Rat) (thr : Rat) (hs : s.Pairwise (· ≥ ·)) :
+    keepTheta s thr ≤ s.length ∧ (∀ x ∈ s.take (keepTheta s thr), thr < x) ∧
+    (∀ x ∈ s.drop (keepTheta s thr), x ≤ thr) :=
+  ⟨countGT_le thr s, countGT_prefix thr s hs⟩
+
+/-- **C09.4f** (`MPO.from_matrix._truncate`) without a positive cutoff and without a cap nothing is truncated (the
+    factorisation is exact); with a positive cutoff at least one value is kept, never more than exist, and — when the
+    cap does not bind — every discarded value is at or below the cutoff; a cap is always obeyed -/
+theorem c09_from_matrix_rule (s : List Rat) (cutoff : Rat) (hs : s.Pairwise (· ≥ ·)) :
+    (cutoff ≤ 0 → keepFromMatrix s cutoff none = s.length) ∧
+    (0 < cutoff → 1 ≤ keepFromMatrix s cutoff none ∧ (s ≠ [] → keepFromMatrix s cutoff none ≤ s.length) ∧
+      ∀ x ∈ s.drop (keepFromMatrix s cutoff none), x ≤ cutoff) ∧
+    (∀ m, keepFromMatrix s cutoff (some m) ≤ m) := by
+  refine ⟨?_, ?_, ?_⟩
+  · intro h
+    have : ¬ cutoff > 0 := not_lt.mpr h
+    simp [keepFromMatrix, capOpt, this]
+  · intro h
+    have hc := countGT_le cutoff s
+    have hk : keepFromMatrix s cutoff none = max (countGT cutoff s) 1 := by simp [keepFromMatrix, capOpt, h]
+    rw [hk]
+    refine ⟨by omega, ?_, ?_⟩
+    · intro hne
+      have : 1 ≤ s.length := by cases s with | nil => exact absurd rfl hne | cons a t => simp
+      omega
+    · intro x hx
+      have hsub : x ∈ s.drop (countGT cutoff s) := by
+        have hle : countGT cutoff s ≤ max (countGT cutoff s) 1 := by omega
+        exact List.mem_of_mem_drop (by
+          rw [show max (countGT cutoff s) 1 = countGT cutoff s + (max (countGT cutoff s) 1 - countGT cutoff s) by omega,
+            ← List.drop_drop] at hx
+          exact hx)
+      exact (countGT_prefix cutoff s hs).2 x hsub
+  · intro m
+    unfold keepFromMatrix capOpt
+    simp only
+    omega
+
+/-- **C09.4g** (`truncated_right_svd`) without a cap the discarded weight is strictly below the threshold and at least one
+    value is kept; a cap is always obeyed -/
+theorem c09_right_svd_rule (s : List Rat) (thr : Rat) (h0 : 0 < thr) :
+    tailWeight s (keepRightSvd s thr none) < thr ∧ (s ≠ [] → 1 ≤ keepRightSvd s thr none) ∧
+    keepRightSvd s thr none ≤ max s.length 1 ∧ (∀ m, keepRightSvd s thr (some m) ≤ m) := by
+  have hd := dropGE_le thr s.reverse 0
+  simp only [List.length_reverse] at hd
+  refine ⟨?_, ?_, ?_, ?_⟩
+  · unfold keepRightSvd capOpt
+    simp only
+    split
+    · have hw := dropGE_weight thr s.reverse 0 h0
+      rw [← tailWeight_eq_take_reverse] at hw
+      linarith
+    · rename_i hb
+      have htot : sqsum s < thr := by
+        by_contra hcon
+        have := brokeGE_of_total thr s.reverse 0 h0 (by rw [zero_add, sqsum_reverse]; exact not_lt.mp hcon)
+        exact hb this
+      have h1 : tailWeight s 1 ≤ tailWeight s 0 := tailWeight_anti s (Nat.zero_le 1)
+      have h2 : tailWeight s 0 = sqsum s := by simp [tailWeight]
+      linarith
+  · intro hne
+    unfold keepRightSvd capOpt
+    simp only
+    split
+    · rename_i hb
+      have : dropGE thr s.reverse 0 < s.reverse.length := dropGE_lt_of_broke thr s.reverse 0 hb
+      simp only [List.length_reverse] at this
+      omega
+    · exact Nat.le_refl 1
+  · unfold keepRightSvd capOpt
+    simp only
+    split <;> omega
+  · intro m
+    unfold keepRightSvd capOpt
+    simp only
+    omega
+
+example : keepTheta [1, 1/2, 1/4, 1/8] (1/4) = 2 ∧ keepFromMatrix [1, 1/2, 1/4, 1/8] (1/4) (some 1) = 1 ∧
+    keepFromMatrix [1, 1/2, 1/4, 1/8] 0 none = 4 ∧ keepRightSvd [1, 1/2, 1/4, 1/8] (1/10) none = 2 ∧
+    keepRightSvd [1/8, 1/16] 1 none = 1 := by decide +kernel
+
 /-- non-vacuity: a concrete spectrum where threshold, floor and cap all act -/
 example : keepDW [1, 1/2, 1/4, 1/8] (1/10) 1 8 = 2 ∧ keepDW [1, 1/2, 1/4, 1/8] (1/10) 3 8 = 3 ∧
     keepDW [1, 1/2, 1/4, 1/8] 0 1 3 = 3 ∧ tailWeight [1, 1/2, 1/4, 1/8] 2 ≤ 1/10 := by decide +kernel
